@@ -4,6 +4,7 @@ package patch
 
 import (
 	"fmt"
+	"io"
 	"syscall"
 	"testing"
 	"unsafe"
@@ -134,6 +135,34 @@ func TestC15Amd64Installed(t *testing.T) {
 			g.UnpatchWithLock()
 			check(hist+", Unpatch", nil, 0)
 			rep.Class("installed/guard-reuse")
+		}
+		// the same toggling with an origin placeholder: the placeholder keeps leading back into the function after
+		// every Unpatch / Apply of the guard
+		rep.Journal(map[string]interface{}{"part": "installed", "step": "guard reuse with a placeholder"})
+		if g, err := PtrTrampoline(entry, fA, &c15OriginPh); err != nil {
+			rep.Violate("C15/installed-sequence", fmt.Sprintf("guard reuse with a placeholder: %v", err), nil)
+		} else {
+			hist := "Apply"
+			g.Apply()
+			for k := 0; k < 3; k++ {
+				check(hist, fA, 4005)
+				if got := c15OriginPh(5); got != 35 {
+					rep.Violate("C15/placeholder-does-not-return-to-origin", fmt.Sprintf("%s: the placeholder called with 5 gives %d, the function's own result is 35", hist, got), map[string]interface{}{"history": hist})
+					break
+				}
+				g.UnpatchWithLock()
+				hist += ", Unpatch"
+				check(hist, nil, 0)
+				g.Apply()
+				hist += ", Apply"
+			}
+			check(hist, fA, 4005)
+			if got := c15OriginPh(5); got != 35 {
+				rep.Violate("C15/placeholder-does-not-return-to-origin", fmt.Sprintf("%s: the placeholder called with 5 gives %d, the function's own result is 35", hist, got), map[string]interface{}{"history": hist})
+			}
+			g.UnpatchWithLock()
+			check(hist+", Unpatch", nil, 0)
+			rep.Class("installed/guard-reuse-with-placeholder")
 		}
 		rep.Journal(map[string]interface{}{"part": "installed", "step": "two guards"})
 		ga, errA := Ptr(entry, fA)
@@ -275,4 +304,11 @@ func TestC15Amd64Return(t *testing.T) {
 			break
 		}
 	}
+}
+
+var c15OriginPh = func(a int) int {
+	fmt.Fprintln(io.Discard, "only a placeholder, never called")
+	fmt.Fprintln(io.Discard, "only a placeholder, never called")
+	fmt.Fprintln(io.Discard, "only a placeholder, never called")
+	return -1000
 }
